@@ -96,7 +96,7 @@ from sympy import Symbol
 # ------------------------------------------------------------------------ circuits
 QLAYOUTS = [(("r", 1),), (("r", 2),),
             (("b", 1), ("a", 1)), (("b", 1), ("a", 2)), (("b", 2), ("a", 1)), (("b", 2), ("a", 2))]
-SYMS = [(), ("zz",), ("zz", "al")]              # order of first use; sorted order differs
+SYMS = [(), ("zz",), ("zz", "al"), ("cc", "aa", "bb")]   # order of first use; sorted order differs (the last one is a 3-cycle)
 CLAYOUTS = [(), (("c", 1),), (("c", 2),), (("d", 1), ("c", 1))]
 
 
@@ -315,7 +315,7 @@ def run_exec_case(item):
             return {"bad": f"{mode} program not accepted: {o.brief()}", "cls": "exec-program-rejected"}
         circ = mod.__dict__["circ"]
         h = o.package.modules[0]
-        values = [0.3, 0.7][:ns]
+        values = [0.3, 0.7, 1.1][:ns]
         # pytket's own answer
         c2 = circ.copy()
         names = sorted(str(x) for x in circ.free_symbols())
